@@ -36,7 +36,7 @@ MANIFEST = {
     'technique': 'explicit-state BFS over edit histories (add / overwrite / rejected add / remove by rule, name, prefix / hook '
                  'add / hook remove) on the real router, deduplicated by the concrete object graph; each state compared with a '
                  'survivor model and with routers freshly built from the survivors',
-    'text': 'All histories up to depth 3 (quick) / 5 (thorough) over a menu of 35 operations are replayed on fresh '
+    'text': 'All histories up to depth 3 (quick) / 5 (thorough) over a menu of 38 operations are replayed on fresh '
             'applications; every distinct concrete router state is probed on all paths and methods and compared with the '
             'survivor model, with freshly built routers (two insertion orders) and through Ombott.__call__ (hook invocations).',
     'note': 'Bounds: 10 rules, 4 hook rules, 3 names, depth as stated. Trusted: the survivor model here, vf/refrouter.py.',
@@ -60,6 +60,8 @@ def menu():
     m = [('add', r) for r in U]
     m += [('addn', '/a/b', 'n1'), ('addn', '/a/{x}', 'n2'), ('addn', '/q/z', 'n1'), ('addn', '/a/b', 'n3')]   # n3 registers PUT: an alias
     m += [('addo', '/a/b'), ('addo', '/a/{x}')]
+    # one registration for several methods: rejected as a whole when any of them is taken (nothing may stay behind)
+    m += [('addm', '/a/b', 'PG'), ('addm', '/a/{x}', 'GP'), ('addm', '/q/z', 'PO')]
     m += [('rm', r) for r in U if r != '/a/{x:int}']
     m += [('rmn', n) for n in NAMES]
     m += [('rmp', '/a/b*'), ('rmp', '/a*'), ('rmp', '/q*')]
@@ -83,6 +85,18 @@ def bounds(tier, seed):
 
 FLOORS = {'states_with_removal': 200, 'states_with_hooks': 200, 'rejected_ops': 100, 'resolve_probes': 50000,
           'hook_firings': 1000, 'wsgi_probes': 5000}
+
+
+MULTI = {'PG': ['PUT', 'GET'], 'GP': ['GET', 'PUT'], 'PO': ['PUT', 'POST']}
+
+
+def methods_of(op):
+    k = op[0]
+    if k == 'addn':
+        return ['PUT'] if op[2] == 'n3' else ['POST']
+    if k == 'addm':
+        return MULTI[op[2]]
+    return ['GET']
 
 
 def fk_of(ast):
@@ -135,14 +149,14 @@ class Model:
     def expect(self, op):
         """-> 'accept' | 'reject' | 'either' (without changing the model)"""
         k = op[0]
-        if k in ('add', 'addn', 'addo'):
+        if k in ('add', 'addn', 'addo', 'addm'):
             ast = self.U[op[1]]
             pat = rr.pattern(ast)
-            method = ('PUT' if op[2] == 'n3' else 'POST') if k == 'addn' else 'GET'
+            methods = methods_of(op)
             if pat in self.routes:
                 if fk_of(self.routes[pat]['ast']) != fk_of(ast):
                     return 'reject'
-                if method in self.routes[pat]['methods'] and k != 'addo':
+                if any(m in self.routes[pat]['methods'] for m in methods) and k != 'addo':
                     return 'reject'
             else:
                 c = self._conflict(ast)
@@ -164,22 +178,23 @@ class Model:
         exp = self.expect(op)
         if exp == 'either':
             exp = 'reject' if raised else 'accept'
-        if k in ('add', 'addn', 'addo'):
+        if k in ('add', 'addn', 'addo', 'addm'):
             ast = self.U[op[1]]
             pat = rr.pattern(ast)
-            method = ('PUT' if op[2] == 'n3' else 'POST') if k == 'addn' else 'GET'
-            hid = {'add': 'G:', 'addn': 'P:', 'addo': 'O:'}[k] + op[1]
+            methods = methods_of(op)
+            hid = {'add': 'G:', 'addn': 'P:', 'addo': 'O:', 'addm': 'M:'}[k] + op[1]
             if exp == 'reject':
                 # the only rejected add with specified side effects: a name conflict (route + method stay registered)
                 name_conflict = (k == 'addn' and op[2] in self.names and self.names[op[2]] != pat)
                 if not name_conflict:
                     return
-                if pat in self.routes and (fk_of(self.routes[pat]['ast']) != fk_of(ast) or method in self.routes[pat]['methods']):
+                if pat in self.routes and (fk_of(self.routes[pat]['ast']) != fk_of(ast) or any(m in self.routes[pat]['methods'] for m in methods)):
                     return
                 if pat not in self.routes and self._conflict(ast):
                     return
             r = self.routes.setdefault(pat, {'rule': op[1], 'ast': ast, 'methods': {}})
-            r['methods'][method] = hid
+            for method in methods:
+                r['methods'][method] = hid
             if k == 'addn' and exp == 'accept':
                 self.names[op[2]] = pat
             return
@@ -267,6 +282,8 @@ def apply_real(app, op, log):
             app.route(op[1], 'PUT' if op[2] == 'n3' else 'POST', make_handler(app, 'P:' + op[1]), name=op[2])
         elif k == 'addo':
             app.route(op[1], 'GET', make_handler(app, 'O:' + op[1]), overwrite=True)
+        elif k == 'addm':
+            app.route(op[1], list(MULTI[op[2]]), make_handler(app, 'M:' + op[1]))
         elif k in ('rm', 'rmp'):
             app.remove_route(op[1])
         elif k == 'rmn':
